@@ -16,6 +16,15 @@
 #                    (Int->Float, String->Int) as element, key or value (push, push_at, set, append, mem, rem, get):
 #                    insertions must raise (ClassError/TypeError/ValueError), queries must not claim success, and
 #                    the container still has its two items with their values.
+#   type-null        NULL as the receiver of each of the 81 public functions of Cello.h that take object arguments, and
+#                    NULL in every further object position with a valid receiver of every kind (Array/List of Int,
+#                    Table/Tree Int->Int, heap String, Int, Float, Ref, Box, Tuple, Range, closed File, Mutex, Function)
+#                    whose type implements the class: an exception from the accept set must be raised, unless the
+#                    decision table in h_type.c (null_decision, one commented line per exception) says NULL is a value
+#                    there; never a signal / sanitizer report / hang; the receiver reads the same afterwards and one
+#                    further valid operation works.  Cases recorded as library defects (proposed/C12-null-arguments.md)
+#                    are skipped unless NULL_DEFECTS is switched on below - do that once the patch is in /repo.
+NULL_DEFECTS = ['defects=1']   # the five NULL-argument defects are repaired in /repo (d2572d0, 319d06b, 2ccdb83, a9595a3, b9e20f4)
 
 def T(name, variant, *args, **kw):
     d = dict(name='type-' + name, harness='h_type.c', variant=variant, args=list(args))
@@ -29,12 +38,16 @@ PARTS = {
       T('api', 'base', 'mode=api'),
       T('fail-cells-asan', 'asan', 'mode=matrix', 'only=fail', 'warm=1', 'count=0'),
       T('api-asan', 'asan', 'mode=api', 'count=0'),
+      T('null', 'base', 'mode=null', *NULL_DEFECTS),
+      T('null-asan', 'asan', 'mode=null', 'count=0', *NULL_DEFECTS),
     ],
     'thorough': [
       T('fail-cells', 'base', 'mode=matrix', 'only=fail', 'warm=1'),
       T('api', 'base', 'mode=api'),
       T('fail-cells-asan', 'asan', 'mode=matrix', 'only=fail', 'warm=1', 'count=0'),
       T('api-asan', 'asan', 'mode=api', 'count=0'),
+      T('null', 'base', 'mode=null', *NULL_DEFECTS),
+      T('null-asan', 'asan', 'mode=null', 'count=0', *NULL_DEFECTS),
     ],
   },
 }
